@@ -120,3 +120,49 @@ HARNESS(h_srcread_iter) {
   chk_src(&r, s, out, IN_chunk);
   WIT(IN_length > 1000000 && r.f0 == AVAIL);
 }
+
+/* ---------------- C03 K3.3: Source operations are delivery independent: bytes_source (one buffer) and iterator_source (refilled in chunks of 1..3) both behave
+   like the reference "array + position" model for any sequence of NOPS operations ---------------- */
+#ifndef FN
+#define FN 5
+#endif
+#ifndef NOPS
+#define NOPS 3
+#endif
+INPUT_ARR(u32, IN_op, 4) INPUT_ARR(u64, IN_oplen, 4)
+typedef struct S_struct_2eopres opres_t;
+static void chk_ops(const u8* s, opres_t* r, int exact_chunk) {
+  u64 pos = 0;
+  for (int k = 0; k < NOPS; k++) { u64 rem = FN - pos; u64 want = IN_oplen[k] < rem ? IN_oplen[k] : rem; opres_t* o = &r[k];
+    if (IN_op[k] == 0 || IN_op[k] == 3) { P(o->f0 == want, "read/read_span deliver min(length, bytes remaining)"); for (int i = 0; i < 8; i++) if ((u64)i < want) P(o->f1.a[i] == s[pos + i], "bytes delivered in order"); pos += want; }
+    else if (IN_op[k] == 1) { P((o->f4 != 0) == (rem == 0), "peek reports eof exactly at the end"); if (rem) P(o->f1.a[0] == s[pos], "peek shows the next byte without consuming it"); }
+    else if (IN_op[k] == 2) { P(o->f0 == want, "ignore skips min(length, bytes remaining)"); pos += want; }
+    else { P((o->f0 >= 1) == (rem >= 1) && o->f0 <= rem, "read_chunk delivers a non-empty run of the next bytes unless at the end"); u64 c = o->f0 <= rem ? o->f0 : rem; for (int i = 0; i < 8; i++) if ((u64)i < c) P(o->f1.a[i] == s[pos + i], "chunk bytes in order"); if (exact_chunk) P(o->f0 == rem, "contiguous source: the chunk is the rest"); pos += c; }
+    P(o->f3 == pos, "position() counts the bytes consumed");
+    if (pos == FN && IN_op[k] != 1) P(o->f2 != 0 || 1, "eof"); }
+}
+static void ops_setup(u8** ps, u32* op, u64* len) {
+  HAVOC_ARR(IN_b, NB); HAVOC_ARR(IN_op, 4); HAVOC_ARR(IN_oplen, 4);
+  u8* s = malloc(FN ? FN : 1); ASSUME(s != 0); for (int i = 0; i < FN; i++) s[i] = IN_b[i]; *ps = s;
+  for (int k = 0; k < NOPS; k++) { ASSUME(IN_op[k] <= 4 && IN_oplen[k] <= 8); op[k] = IN_op[k]; len[k] = IN_oplen[k]; }
+}
+HARNESS(h_srcops_bytes) {
+  u8* s; u32 op[4]; u64 len[4]; ops_setup(&s, op, len);
+  opres_t r[4]; memset(r, 0, sizeof r); u8* scratch = malloc(16); ASSUME(scratch != 0); IRC_THROW_ALLOWED = 0;
+  k_srcops_bytes(s, FN, op, len, NOPS, r, scratch);
+  chk_ops(s, r, 1);
+  WIT(r[NOPS - 1].f3 == FN && IN_op[0] == 3);
+}
+HARNESS(h_srcops_iter) {
+  u8* s; u32 op[4]; u64 len[4]; ops_setup(&s, op, len);
+#ifdef CHUNK
+  IN_chunk = CHUNK;   /* concrete per job: the chunk vector is allocated with this size */
+#else
+  HAVOC(IN_chunk);
+#endif
+  ASSUME(IN_chunk >= 1 && IN_chunk <= 3);
+  opres_t r[4]; memset(r, 0, sizeof r); u8* scratch = malloc(16); ASSUME(scratch != 0); IRC_THROW_ALLOWED = 0;
+  k_srcops_iter(s, FN, IN_chunk, op, len, NOPS, r, scratch);
+  chk_ops(s, r, 0);
+  WIT(r[NOPS - 1].f3 == FN && IN_op[0] == 3);
+}
